@@ -39,7 +39,11 @@ CHECKS['C08'] = dict(
          'form; the raw leaves are exactly the HtmlBlock/HtmlSpan contents in order, and there are none when the tree '
          'has no HTML token. The escaping helpers are per-character maps whose ASCII tables are re-probed from /repo '
          'on every run, so a dropped or reordered escape breaks a `decide` obligation. The renderer model is tied to '
-         'the code byte-for-byte on parser ASTs and on hostile edited ASTs under all 8 option sets.',
+         'the code byte-for-byte on parser ASTs and on hostile edited ASTs under all 8 option sets. For every input TEXT '
+         '(Props/C08_EndToEnd.lean): the parse returns a document, every parsed document has heading levels 1-6 '
+         '(C12_parsed_shape), so the output is well formed with no hypothesis left (C08_every_text); with HtmlBlock and '
+         'HtmlSpan absent from the token lists (process_html_tokens=False) no raw leaf reaches the output at all '
+         '(C08_every_text_no_raw).',
     note='Trusted: Lean kernel (axioms propext/Classical.choice/Quot.sound at most); table extraction and the '
          'correspondence harness; htmlcheck.py as executable reading of the predicate on implementation output; '
          'hypothesis levelsOks (heading level 1..6). Pygments output is outside the model.',
@@ -80,7 +84,9 @@ CHECKS['C19'] = dict(
          'Nesting: for every heading list that is an outline with plain titles the block phase on those lines returns '
          'ONE list nested exactly as the outline (C19_toc_nested, for the token lists regenerated from /repo); the '
          'conclusion is re-checked on the real TocRenderer.toc each run; titles with markup and non-outline lists are '
-         'explored on the implementation against the generator outline.',
+         'explored on the implementation against the generator outline. Plain text: for titles of raw text, emphasis, '
+         'strong, strikethrough, inline code and escapes free of <, >, & the tag-stripping regex removes exactly the tags '
+         '(C19_plain_text_entry, C19_plain_text_formatted).',
     note='Trusted: Lean kernel (axioms propext/Classical.choice/Quot.sound at most); correspondence harness; filters are '
          'substring predicates. A document without qualifying headings is outside the claim.',
     technique='Lean 4 proof (structural induction: collection = filtered pre-order of headings; mutual induction over the outline forest for the list parse) + correspondence of _headings + hypothesis evaluation with conclusion checked on the implementation + outline-oracle exploration',
@@ -93,7 +99,7 @@ CHECKS['C17'] = dict(
          'arguments without braces/backslashes/raw % #, and a verb delimiter that does not occur in the code (or the '
          'documented refusal). The per-character escape tables are re-probed from /repo on every run, so a dropped or '
          'reordered escape breaks a `decide` obligation. The renderer model is tied to the code byte-for-byte on parser '
-         'ASTs and on hostile edited ASTs.',
+         'ASTs and on hostile edited ASTs. For every input TEXT (Props/C17_EndToEnd.lean): the parse returns a document and the renderer either refuses with the documented \\verb refusal or its output is well formed (C17_every_text).',
     note='Trusted: Lean kernel (axioms propext/Classical.choice/Quot.sound at most); table extraction and correspondence '
          'harness; latexcheck.py as executable reading of the predicate on implementation output. Verbatim regions '
          '(verb, lstlisting body, math) are set aside as the property says; URL arguments are a leaf kind with their own '
@@ -278,10 +284,15 @@ CHECKS['C03'] = dict(
          'paragraphs (0-3 spaces of indent), ATX headings and thematic breaks in any spelling the dispatcher accepts, and '
          'block quotes of these with either marker, Document(write(tree)) is exactly the tree with its line numbers and '
          'HtmlRenderer returns byte for byte the HTML written directly from the tree, for the token lists regenerated '
-         'from /repo; two spellings of one tree give the same HTML. The hypothesis is executable: each run generates '
+         'from /repo; two spellings of one tree give the same HTML. LISTS (Props/C03_Lists.lean, possible since C05 '
+         'holds with lists among earlier siblings): bullet and ordered lists, padding 1-4, tight or loose, any number of '
+         'items and of blocks per item, nested lists and quotes to any depth - Document(write(tree)) is the tree (List / '
+         'ListItem tokens with loose, start, markers, offsets, line numbers) and the HTML is byte for byte the HTML '
+         'written from the tree (C03_lists_document_partial, C03_lists_html_partial). The hypothesis is executable: each run generates '
          'random forests, evaluates it and the concluded HTML in Lean, and checks the REAL renderer on the written text. '
-         'Everything outside the fragment (setext headings, code blocks, lists, tables, HTML blocks, link definitions, all '
-         'inline constructs other than text and soft breaks, lazy continuation, interruption) is NOT proved: it is '
+         'Everything outside the fragment (setext headings, code blocks, tables, HTML blocks, link definitions, all '
+         'inline constructs other than text and soft breaks, lazy continuation, interruption, list marker indentation, '
+         'items beginning with a blank line) is NOT proved: it is '
          'explored with the tree generator (all block and inline kinds, depth <= 4, free spellings, adjacency without '
          'spaces) against an independent HTML oracle under the specification driver\'s normalisation.',
     note='Trusted: Lean kernel (axioms propext/Classical.choice/Quot.sound at most); doc correspondence; the second driver '
